@@ -70,6 +70,15 @@ SLICES = [
                R("CScript() << nHeight", r"CScript expect = CScript\(\) << nHeight;", "unsigned char expect_d[16]; ByteVec expect_v = {expect_d, 0, 16}; ByteVec* expect = &expect_v; CScript_push_int64(expect, nHeight);", True),
                R("view:coinbase scriptSig size", r"block\.vtx\[0\]->vin\[0\]\.scriptSig\.size\(\)", "cb_scriptSig->size", True), R("member:expect.size()", r"expect\.size\(\)", "expect->size", True),
                R("std::equal over expect", r"std::equal\(expect\.begin\(\), expect\.end\(\), block\.vtx\[0\]->vin\[0\]\.scriptSig\.begin\(\)\)", "ByteVec_equal_prefix(expect, cb_scriptSig)", True), INV]},
+    _opc("OP_16"), _opc("OP_CHECKSIG"), _opc("OP_CHECKSIGVERIFY"), _opc("OP_CHECKMULTISIG"), _opc("OP_CHECKMULTISIGVERIFY"), _opc("OP_INVALIDOPCODE"),
+    {"name": "MAX_PUBKEYS_PER_MULTISIG", "kind": "const", "file": SH, "pat": r"inline constexpr int MAX_PUBKEYS_PER_MULTISIG = (\d+);", "emit": r"static const int MAX_PUBKEYS_PER_MULTISIG = \1;"},
+    {"name": "DecodeOP_N", "cname": "CScript_DecodeOP_N", "kind": "func", "file": SH, "within_class": r"class CScript : public CScriptBase", "head": r"static int DecodeOP_N\(opcodetype opcode\)",
+     "rules": [R("head", r"static int DecodeOP_N\(opcodetype opcode\)", "int CScript_DecodeOP_N(opcodetype opcode)"), R("assert", r"\bassert\(", "VERIF_ASSERT(", True)]},
+    {"name": "GetSigOpCount", "cname": "CScript_GetSigOpCount", "kind": "func", "file": "src/script/script.cpp", "head": r"unsigned int CScript::GetSigOpCount\(bool fAccurate\) const",
+     "rules": [R("head: the script as the stream of instructions GetOp decodes", r"unsigned int CScript::GetSigOpCount\(bool fAccurate\) const", "unsigned int CScript_GetSigOpCount(const OpStream* self, bool fAccurate)"),
+               R("ghost:script cursor", r"const_iterator pc = begin\(\);", "size_t pc = 0;", True), R("ghost:pc < end()", r"pc < end\(\)", "pc < self->n", True),
+               R("stub:GetOp(pc, opcode)", r"(?<![\w.>])GetOp\(pc, opcode\)", "OpStream_GetOp(self, &pc, &opcode)", True), R("static member call", r"(?<![\w.>])DecodeOP_N\(", "CScript_DecodeOP_N(", False)],
+     "loops": [{"match": r"while \(pc < self->n\)", "contract": "LOOP_SIGOPSCAN", "prologue": "((void)0)"}]},
     {"name": "weight_limit", "cname": "ContextualCheckBlock_weight_limit", "kind": "frag", "file": VC, "within": r"static bool ContextualCheckBlock\([^)]*\)",
      "begin": r"if \(GetBlockWeight\(block\) > MAX_BLOCK_WEIGHT\)", "end": r"return true;", "include_end": True,
      "prologue": "bool ContextualCheckBlock_weight_limit(const CBlockView* block, BlockValidationState* state)\n{", "epilogue": "}", "rules": [INV]},
@@ -83,13 +92,14 @@ PLAN = {
         {"name": "h_CheckBlock", "enforce": "CheckBlock", "loop_contracts": True, "twins": [{"define": "TWIN_SIGOPS", "expect": "postcondition"}, {"define": "TWIN_TWO_CB", "expect": "postcondition"}], "timeout": 600},
         {"name": "h_GetTransactionSigOpCost", "enforce": "GetTransactionSigOpCost", "loop_contracts": True, "twins": [{"define": "TWIN_COST", "expect": "postcondition"}]},
         {"name": "h_sigops_accumulation", "enforce": "ConnectBlock_sigops_accumulation", "replace": ["GetTransactionSigOpCost"], "twins": [{"define": "TWIN_80001", "expect": "postcondition"}]},
+        {"name": "h_GetSigOpCount", "enforce": "CScript_GetSigOpCount", "loop_contracts": True, "twins": [{"define": "TWIN_OP0", "expect": "postcondition|loop_invariant"}]},
         {"name": "h_bip34", "enforce": "ContextualCheckBlock_bip34", "unwind": 12, "twins": [{"define": "TWIN_BIP34", "expect": "postcondition"}]},
         {"name": "h_GetBlockWeight", "enforce": "GetBlockWeight"},
         {"name": "h_weight_limit", "enforce": "ContextualCheckBlock_weight_limit", "replace": ["GetBlockWeight"], "twins": [{"define": "TWIN_WEIGHT", "expect": "postcondition"}]},
     ],
-    "native": {"src": "replay.cpp", "c_src": "native_slices.c", "repo_sources": ["src/consensus/tx_verify.cpp"], "diff_n_quick": 3000, "diff_n_thorough": 200000,
+    "native": {"src": "replay.cpp", "c_src": "native_slices.c", "repo_sources": ["src/consensus/tx_verify.cpp", "src/script/script.cpp", "src/script/interpreter.cpp", "src/consensus/tx_check.cpp"], "diff_n_quick": 3000, "diff_n_thorough": 200000,
                "libs": ["libbitcoin_common.a", "libbitcoin_consensus.a", "libbitcoin_util.a", "libbitcoin_clientversion.a", "libbitcoin_crypto.a", "/repo/_build/src/secp256k1/lib/libsecp256k1.a"]},
-    "not_covered": ["the script scanners (CScript::GetSigOpCount, CountWitnessSigOps, GetP2SHSigOpCount): their results are ghost inputs; the native harness runs the real ones on scripts with sigops in scriptSigs, outputs, redeem and witness scripts",
+    "not_covered": ["the P2SH / witness script scanners (CScript::GetSigOpCount(scriptSig), CountWitnessSigOps, WitnessSigOps, GetP2SHSigOpCount) and GetLegacySigOpCount's sums: their results are ghost inputs; CScript::GetSigOpCount(fAccurate) itself is under contract with GetOp decoding as a stub; the native harness runs the real ones on scripts with sigops in scriptSigs, outputs, redeem and witness scripts",
                     "block weight / serialized sizes themselves (serializer)"],
     "assumptions": ["block.vtx[k]->IsCoinBase(), CheckTransaction(*vtx[k]) and GetLegacySigOpCount(*vtx[k]) are ghost functions of the position k (one pinned position, read once each); CheckBlockHeader, CheckSignetBlockSolution and CheckMerkleRoot are stubs with arbitrary verdicts that set the state on failure",
                     "a transaction's legacy sigop count is at most its number of script bytes, so the block's running total is at most the stripped block size (ASSUMED on the stub; makes the `unsigned int` sum exact)",
@@ -98,7 +108,7 @@ PLAN = {
         "category": "proof",
         "text": "partial (limits and coinbase position, sigop-cost arithmetic): CheckBlock accepts a not-yet-checked block only if the header check, (signet) block solution and (if asked) merkle check pass, it has at least one transaction, 4 * count and 4 * stripped size are at most 4,000,000, the first transaction is a coinbase and no other is, every transaction passes CheckTransaction, and 4 * (sum of legacy sigops) is at most 80,000 -- "
                 "and each violation, including by the smallest amount, is rejected with its named reason (bad-blk-length, bad-cb-missing, bad-cb-multiple, the transaction's reason, bad-blk-sigops); fChecked is set only on success with both fCheckPOW and fCheckMerkleRoot; "
-                "GetTransactionSigOpCost = 4*legacy for a coinbase, else 4*legacy + 4*P2SH (if the flag) + witness sigops, without overflow; ConnectBlock's accumulation rejects exactly when the running cost exceeds 80,000; with BIP34 active the coinbase scriptSig must start with the script push of the height (OP_0, OP_1..OP_16, else length byte + minimal little-endian bytes: CScript::push_int64, AppendDataSize and CScriptNum::serialize are extracted and run inside the proof) or the block is rejected with bad-cb-height; GetBlockWeight = 3*stripped + total and ContextualCheckBlock rejects exactly when it exceeds 4,000,000.",
+                "GetTransactionSigOpCost = 4*legacy for a coinbase, else 4*legacy + 4*P2SH (if the flag) + witness sigops, without overflow; ConnectBlock's accumulation rejects exactly when the running cost exceeds 80,000; with BIP34 active the coinbase scriptSig must start with the script push of the height (OP_0, OP_1..OP_16, else length byte + minimal little-endian bytes: CScript::push_int64, AppendDataSize and CScriptNum::serialize are extracted and run inside the proof) or the block is rejected with bad-cb-height; CScript::GetSigOpCount(fAccurate) counts, up to the first undecodable instruction, 1 per OP_CHECKSIG(VERIFY) and per OP_CHECKMULTISIG(VERIFY) the number 1..16 pushed by an immediately preceding OP_1..OP_16 in accurate mode and 20 otherwise (OP_0 included); GetBlockWeight = 3*stripped + total and ContextualCheckBlock rejects exactly when it exceeds 4,000,000.",
         "note": "Not covered: the script scanners that count sigops, serialized sizes. Trusted: extraction rules, ghost accessors.",
         "technique": "CBMC function contracts with loop contracts (pinned-position ghosts) on extracted CheckBlock / GetTransactionSigOpCost / GetBlockWeight and anchor-delimited fragments of ConnectBlock and ContextualCheckBlock",
     },
